@@ -5,10 +5,9 @@ Workload: 1-4 clients in one loop sharing the two process-global parse caches. O
 condition / AHB parser (strings from a small pool, so hits are frequent), R resolve, E evaluate (with yielding peers,
 so the evaluation stays in flight across other clients' operations), M edit a previously returned tree in place at
 any depth, F flood the cache with fresh strings (eviction), S let virtual time pass.
-Reference model: an *uncached* Lark parser built from the module's own GRAMMAR string; for R and E the same call in a
-pristine process (cold caches, no edits, no yields).
-Oracle: every tree returned by a parse equals the reference tree, every R/E result equals its pristine reference,
-and a final sweep re-parses every pool string.
+Reference: the same call as the first and only thing a pristine process does (cold caches, no edits, no yields).
+Oracle: every tree returned by a parse and every R/E result equals its pristine reference, a final sweep re-parses
+every pool string, and a tree nobody edited does not change when another caller edits theirs.
 """
 
 from sim import env  # noqa: F401
@@ -29,25 +28,31 @@ RULE = (
     "flood (measured in the run); distinct = distinct event-log digests among the non-trivial cases"
 )
 
-_REF = {}
+def _parse_alone(grammar, text):
+    """the function under test itself, as the first and only thing a pristine process does"""
+    from ahbicht.expressions.ahb_expression_parser import parse_ahb_expression_to_single_requirement_indicator_expressions
+    from ahbicht.expressions.condition_expression_parser import parse_condition_expression_to_tree
 
-
-def reference_parse(which, text):
-    """uncached parser built from the module's own grammar (a grammar change is not a purity violation)"""
-    from lark import Lark
-    from lark.exceptions import UnexpectedCharacters, UnexpectedEOF
-
-    from ahbicht.expressions import ahb_expression_parser, condition_expression_parser
-
-    if which not in _REF:
-        if which == "cond":
-            _REF[which] = Lark(condition_expression_parser.GRAMMAR, start="expression")
-        else:
-            _REF[which] = Lark(ahb_expression_parser.GRAMMAR, start="ahb_expression")
+    parse = parse_condition_expression_to_tree if grammar == "cond" else (
+        parse_ahb_expression_to_single_requirement_indicator_expressions
+    )
     try:
-        return canon_tree(_REF[which].parse(text))
-    except (UnexpectedCharacters, UnexpectedEOF, TypeError):
+        return canon_tree(parse(text))
+    except SyntaxError:
         return {"exc": "SyntaxError"}
+    except (KeyboardInterrupt, SystemExit):
+        raise
+    except Exception as exc:  # pylint:disable=broad-except
+        return describe_exception(exc)
+
+
+def reference_parse(scenario, which, text):
+    """
+    'whatever happened before': the reference is what the same public function returns when nothing happened before -
+    the first call of a pristine process (computed before the history starts, see execute). It is a statement about
+    purity only: a change of the accepted language or of the tree shape is not a violation of C11.
+    """
+    return scenario["_parse_references"][f"{which}|{text}"]
 
 
 # ------------------------------------------------------------------------------------------------------- edits
@@ -200,13 +205,13 @@ async def do_op(sim, request):
             except (KeyboardInterrupt, SystemExit):
                 raise
             except Exception as exc:  # pylint:disable=broad-except
-                got = {"exc": type(exc).__name__}  # neither a tree nor the documented SyntaxError
-            expected = reference_parse(which, text)
+                got = describe_exception(exc)  # neither a tree nor the documented SyntaxError
+            expected = reference_parse(sim.scenario, which, text)
             if got != expected:
                 violation(
-                    f"parse-differs-from-uncached-reference:{which}",
-                    f"{cid} op {number}: parse({text!r}) returned {dumps(got)[:500]}, an uncached parser returns "
-                    f"{dumps(expected)[:500]}",
+                    f"parse-differs-from-pristine-process:{which}",
+                    f"{cid} op {number}: parse({text!r}) returned {dumps(got)[:500]}, as the first call of a pristine "
+                    f"process it returns {dumps(expected)[:500]}",
                 )
         elif kind in ("R", "E"):
             entry = pool[op[2] % len(pool)]
@@ -253,10 +258,14 @@ async def do_op(sim, request):
                         )
         elif kind == "F":
             for _ in range(op[1]):
-                # fresh, trivial, well-formed strings over key numbers that are valid everywhere: [a][b]
+                # fresh, trivial, well-formed strings over key numbers that are valid everywhere: [a][b], both parsers
                 state["flood_counter"] += 1
                 first, second = divmod(state["flood_counter"], 60)
-                parse_condition_expression_to_tree(f"[{1 + first % 499}][{901 + second}]")
+                text = f"[{1 + first % 499}][{901 + second}]"
+                if len(op) > 2 and op[2] == "ahb":
+                    parse_ahb_expression_to_single_requirement_indicator_expressions(f"Muss {text}")
+                else:
+                    parse_condition_expression_to_tree(text)
             state["flooded"] += op[1]
             sim.count_fault("F6_cache_flood")
             sim.probe("flood_strings", op[1])
@@ -294,6 +303,11 @@ def generate(seed, tier="quick"):
             )
     for entry in pool:
         entry["evals"] = entry["evals"] + ["resolve_raw", "keys", "keys_t"]
+    if rnd.random() < 0.15:
+        # key numbers outside the documented ranges: whatever the parser says about them, it says it every time
+        odd = rnd.choice(["1000", "0", "2500", "99999"])
+        text = rnd.choice([f"[{odd}]", f"[{rnd.choice(rc)}] U [{odd}]", f"Muss [{odd}] O [{rnd.choice(rc)}]"])
+        pool.append({"grammar": "ahb" if text[0] == "M" else "cond", "text": text, "evals": ["resolve", "resolve_raw"]})
     # packages: resolved with the clients' own (different) package tables through a yielding resolver
     package_keys = []
     if rnd.random() < 0.35:
@@ -373,7 +387,10 @@ def generate(seed, tier="quick"):
                 ops.append(["R", rnd.choice([e for e in pool[target]["evals"] if e in RESOLVING]), target])
             elif roll < 0.62:
                 choices = [e for e in pool[target]["evals"] if e not in RESOLVING]
-                ops.append(["E", rnd.choice(choices), target])
+                if choices:
+                    ops.append(["E", rnd.choice(choices), target])
+                else:
+                    ops.append(["R", rnd.choice([e for e in pool[target]["evals"] if e in RESOLVING]), target])
             elif roll < 0.90:
                 path = [rnd.randrange(3) for _ in range(rnd.choice([0, 0, 1, 1, 2, 3]))]
                 ops.append(["M", rnd.randrange(64), path, rnd.choice(EDITS)])
@@ -382,7 +399,8 @@ def generate(seed, tier="quick"):
             else:
                 ops.append(["X"])
         if flood and index == 0:
-            ops.insert(rnd.randrange(len(ops) + 1), ["F", rnd.choice([200, 1100])])
+            sizes = [200, 1100, 1100] + ([5000, 9000] if big and rnd.random() < 0.15 else [])
+            ops.insert(rnd.randrange(len(ops) + 1), ["F", rnd.choice(sizes), rnd.choice(["cond", "cond", "ahb"])])
         cid = f"c{index}"
         packages = {k: rnd.choice([f"[{rnd.choice(rc)}]", f"[{rnd.choice(rc)}] U [{rnd.choice(rc)}]",
                                    f"[{rnd.choice(rc)}] O [UB1]"]) for k in package_keys}
@@ -424,7 +442,10 @@ def execute(scenario):
                 key = f"{request['rid']}|{op[1]}|{entry['text']}"
                 if key not in references:
                     references[key] = pristine(_reference, scenario, request["rid"], op[1], entry["text"])
-    scenario = dict(scenario, _references=references)
+    parse_references = {
+        f"{entry['grammar']}|{entry['text']}": pristine(_parse_alone, entry["grammar"], entry["text"]) for entry in pool
+    }
+    scenario = dict(scenario, _references=references, _parse_references=parse_references)
     shared = {"handles": [], "edited": set(), "flooded": 0, "flood_counter": 0, "violation": None,
               "nontrivial": False}
 
@@ -457,15 +478,20 @@ def execute(scenario):
             got = canon_tree(parse(entry["text"]))
         except SyntaxError:
             got = {"exc": "SyntaxError"}
-        expected = reference_parse(entry["grammar"], entry["text"])
+        except (KeyboardInterrupt, SystemExit):
+            raise
+        except Exception as exc:  # pylint:disable=broad-except
+            got = describe_exception(exc)
+        expected = reference_parse(scenario, entry["grammar"], entry["text"])
         if got != expected:
             fail(
                 verdict,
-                f"parse-differs-from-uncached-reference:{entry['grammar']}",
-                f"final sweep: parse({entry['text']!r}) returned {dumps(got)[:500]}, an uncached parser returns "
-                f"{dumps(expected)[:500]}",
+                f"parse-differs-from-pristine-process:{entry['grammar']}",
+                f"final sweep: parse({entry['text']!r}) returned {dumps(got)[:500]}, as the first call of a pristine "
+                f"process it returns {dumps(expected)[:500]}",
             )
     caches = env.find_parse_caches()
+    verdict["probes"]["parse_caches_found"] = len(caches)
     for name, cache in zip(("cond", "ahb"), caches):
         info = cache.cache_info()
         verdict["probes"][f"cache_hits_{name}"] = info.hits
@@ -502,7 +528,7 @@ def shrink(scenario):
         for number, op in enumerate(ops):
             if op[0] == "F" and op[1] > 200:
                 candidate = clone(scenario)
-                candidate["requests"][index]["ops"][number] = ["F", 200]
+                candidate["requests"][index]["ops"][number] = ["F", 1100 if op[1] > 1100 else 200] + op[2:]
                 yield candidate
             if op[0] == "M" and op[2]:
                 candidate = clone(scenario)
